@@ -2,6 +2,7 @@ import Zrnt.Driver.Loop
 import Zrnt.Beacon.Spec.Transition
 import Zrnt.Beacon.Impl.Epoch
 import Zrnt.Beacon.Impl.Pipeline
+import Zrnt.Beacon.Impl.Slots
 /-!
 `zmodel c02`. Every op line is  `<op> [<sub>] key=value …`  where the key=value tokens are the flat
 pre-state, the configuration constants and the op's extra inputs:
@@ -12,7 +13,7 @@ pre-state, the configuration constants and the op's extra inputs:
                                 `<code-shaped model M> | <specification S>`
 * `slots target=<slot> sroots=<slot>:<root>,…`  → `process_slots` incl. fork upgrades, as `<M> | <S>` (M: the same slot
                                 loop with the code-shaped `ProcessEpoch` pipeline at the epoch boundaries)
-* `upgrade`                   → the fork upgrade due at the pre-state's slot (if any)
+* `upgrade`                   → the fork upgrade(s) due at the pre-state's slot (if any), as `<M> | <S>`
 
 Extra inputs supplied by the Go side (documented assumptions of the evidence):
 `sroots`  hash_tree_root(state) at the start of each processed slot (SSZ merkleization of the state is C05's subject),
@@ -114,6 +115,15 @@ def epochSubM (cfg : Config) (agg : AggOracle) (sub : String) (s : State) : Opti
   | "sync_committee" => if s.fork = .phase0 then none else some (Impl.syncCommitteeM cfg agg s.validators s)
   | _ => none
 
+/-- `UpgradeMaybe` as coded (`Impl.upgradeMaybe`), with the inputs obtained the way the monadic spec obtains them -/
+def upgradeMaybeM (cfg : Config) (agg : AggOracle) (s : State) : SM State := do
+  let post ← upgrade_maybe cfg agg s
+  let toAltair := s.fork = .phase0 && at_fork_epoch cfg cfg.ALTAIR_FORK_EPOCH s
+  let atts ← if toAltair then
+      resolve_flag_atts cfg (upgrade_to_altair_pure cfg ⟨[], none⟩ s) s.previous_epoch_attestations
+    else pure []
+  pure (Impl.upgradeMaybe cfg ⟨atts, post.current_sync_committee⟩ s)
+
 def c02Line (line : String) : String :=
   let toks := tokens line
   let (kv, rest) := parseKV toks
@@ -139,7 +149,7 @@ def c02Line (line : String) : String :=
         out (process_slots_with Impl.processEpochM cfg agg (rootOracleOf roots) s target) ++ " | " ++
           out (process_slots cfg agg (rootOracleOf roots) s target)
       | _, _ => "bad-op"
-    | ["upgrade"] => out (upgrade_maybe cfg agg s)
+    | ["upgrade"] => out (upgradeMaybeM cfg agg s) ++ " | " ++ out (upgrade_maybe cfg agg s)
     | _ => "bad-op"
   | .error e, _ => if dbg then "bad-op config: " ++ e else "bad-op"
   | _, .error e => if dbg then "bad-op state: " ++ e else "bad-op"
